@@ -38,6 +38,9 @@ func wsScript(name string) []wsStep {
 		return append(s, wsStep{"c2s", t, 2})
 	case "empty_and_big":
 		return []wsStep{{"c2s", t, 0}, {"s2c", t, 0}, {"c2s", b, 100000}, {"s2c", b, 100000}}
+	case "long_session":
+		// the tunnel outlives the configured end-to-end handler timeout (1 s in this script's configuration)
+		return []wsStep{{"c2s", t, 5}, {"s2c", t, 5}, {"pause", 0, 1600}, {"c2s", t, 7}, {"s2c", t, 7}}
 	case "binary_mix":
 		return []wsStep{{"s2c", b, 127}, {"c2s", b, 128}, {"s2c", t, 65535}, {"c2s", t, 65537}}
 	}
@@ -92,6 +95,9 @@ func wsBackendHandler(w http.ResponseWriter, r *http.Request) {
 	defer c.Close()
 	c.SetReadLimit(1 << 22)
 	for i, st := range s.steps {
+		if st.dir == "pause" {
+			continue // the client waits; the backend just keeps reading
+		}
 		c.SetReadDeadline(time.Now().Add(8 * time.Second))
 		c.SetWriteDeadline(time.Now().Add(8 * time.Second))
 		if st.dir == "c2s" {
@@ -146,6 +152,9 @@ func runWS(idx int, raw json.RawMessage, seed int64) map[string]any {
 	}
 	cfg.Logging.RequestID.Enabled = c.IDs
 	cfg.Logging.Trace.Enabled = c.IDs
+	if c.Script == "long_session" {
+		cfg.Server.Timeouts.Handler = 1
+	}
 	h, err := startHelios(cfg)
 	o := map[string]any{"upgraded": false, "c2s_sent": []string{}, "c2s_got": []string{}, "s2c_sent": []string{}, "s2c_got": []string{}, "close_seen": false}
 	if err != nil {
@@ -172,6 +181,12 @@ func runWS(idx int, raw json.RawMessage, seed int64) map[string]any {
 	c2sSent, s2cSent, s2cGot := []string{}, []string{}, []string{}
 	ok := true
 	for i, st := range s.steps {
+		if st.dir == "pause" {
+			if ok {
+				time.Sleep(time.Duration(st.size) * time.Millisecond)
+			}
+			continue
+		}
 		p := wsPayload(s.seed, i, st)
 		if st.dir == "c2s" {
 			c2sSent = append(c2sSent, frameSig(st.typ, p))
